@@ -51,7 +51,9 @@ def gen_world(w, n_membranes=(2, 4), small=False):
     membranes = [wg.fixture_membrane(nme, "m%d" % i) for i, nme in enumerate(picked)]
     n_syn = max(1, w.randint(*n_membranes) - len(membranes))
     for _ in range(n_syn):
-        membranes.append(wg.synth_membrane(w, "m%d" % len(membranes), want_ideal=(w.random() < 0.75)))
+        wi = w.random() < 0.75
+        # an ideal-only membrane (ideal_experiments.csv and an EMPTY diffusion_curve_sets directory) is a case the loader handles explicitly
+        membranes.append(wg.synth_membrane(w, "m%d" % len(membranes), want_ideal=wi, n_sets=(0 if (wi and w.random() < 0.15) else None)))
     # custom components / mixtures
     comps = [gen_custom_component(w, k) for k in range(w.randint(1, 2))]
     mixes = []
@@ -87,6 +89,15 @@ def gen_world(w, n_membranes=(2, 4), small=False):
                 pk = wg.logu(w, 1e-4, 5e-2) * (1.0 + 0.35 * j)
                 pv_ = [float("%.9g" % wg.kg_to_units(pk, cu, mw_r)), cu] if (cu and mw_r) else [pk, None]
                 exps.append({"T": round(t0 + 12.0 * j, 2), "component": dict(r), "permeance": pv_, "ea": ea})
+        if w.random() < 0.25:
+            # replicate measurements of one experiment (same component, same temperature); a replicate below the
+            # detection limit is recorded as 0
+            tgt = w.choice(exps)
+            below = w.random() < 0.6
+            for _ in range(w.choice([1, 2])):
+                e2 = copy.deepcopy(tgt)
+                e2["permeance"][0] = 0.0 if below else float("%.9g" % (tgt["permeance"][0] * wg.rnd(w, 0.9, 1.1, 3)))
+                exps.insert(w.randrange(len(exps) + 1), e2)
         if w.random() < 0.4:
             w.shuffle(exps)                            # not sorted by temperature / component
         membranes.append({"dir": "m%d" % len(membranes), "constructed": True, "experiments": exps, "mixture_ref": {"custom": mx},
@@ -670,7 +681,10 @@ def g_load_membrane(o, M):
     cands = [m["dir"] for m in M.membranes if not m.get("constructed")]
     if not cands:
         return None
-    return {"fn": "load_membrane", "dir": o.choice(cands), "args": {}}
+    op = {"fn": "load_membrane", "dir": o.choice(cands), "args": {}}
+    if o.random() < 0.4:
+        op["rel"] = True         # a path relative to the working directory (the scratch root), as in the library's own examples
+    return op
 
 
 def g_pool_measurements(o, M):
@@ -767,8 +781,20 @@ def g_fn_op(o, M):
             op["as_array"] = o.choice(["x", "t"])       # evaluated on a numpy array of compositions or of temperatures
         return op
     if r < 0.8:
-        return {"fn": "fn_mul", "grid": grid(o, 3), "args": {"function": ref("functions", o.randrange(n)),
-                                                               "constant": o.choice([2, 0.5, -1.0, wg.logu(o, 1e-3, 1e3, 6), 0])}}
+        fi = o.randrange(n)
+        const = o.choice([2, 0.5, -1.0, wg.logu(o, 1e-3, 1e3, 6), 0])
+        rr = o.random()
+        if rr < 0.08:
+            const = {"$npint": o.choice([2, 3, -1, 0])}
+        elif rr < 0.14:
+            const = {"$npfloat": wg.logu(o, 1e-3, 1e3, 6)}
+        elif rr < 0.34:
+            # one constant per product stream: an array constant gives a vector-valued function, (f*c)(x,T) = c*f(x,T) element by element
+            fs = M.spec["functions"][fi]
+            k = 1 + len(fs.get("a") or []) + len(fs.get("b") or [])
+            k = k if o.random() < 0.4 else o.randint(1, 8)
+            const = {"$array": [wg.rnd(o, 0.25, 4.0, 4) for _ in range(k)]}
+        return {"fn": "fn_mul", "grid": grid(o, 3), "args": {"function": ref("functions", fi), "constant": const}}
     nn, mm = o.randint(0, 3), o.randint(0, 3)
     arr = [round(o.uniform(-5, 5), 6) for _ in range(2 + nn + mm)]
     if o.random() < 0.15:
